@@ -299,6 +299,48 @@ def main():
                             'observed': obs, 'seconds': round(r['dt'], 3),
                             'model': allowed[n]})
 
+    # ---- the same faults with signals BLOCKED in the mask inherited from
+    # the parent (serial: preexec_fn).  The failure path reports through
+    # SIGUSR1/SIGUSR2 and bailout(); what the parent happened to block must
+    # not turn a failure into a hang or change its outcome.
+    masks = [[signal.SIGUSR1], [signal.SIGUSR2],
+             [signal.SIGUSR1, signal.SIGUSR2, signal.SIGINT, signal.SIGTERM]]
+    reached = [n for n in range(len(plan)) if results[n]['inj']]
+    pick = ck.rng.sample(reached, min(len(reached), 18 if ck.quick else 150))
+    inherited = 0
+    for k, n in enumerate(sorted(pick)):
+        m, cls, idx, e, sticky = plan[n]
+        args, inf, _ = modes[m]
+        fault = {'FAULT_CLASS': cls, 'FAULT_INDEX': str(idx), 'FAULT_ERRNO': e}
+        if sticky:
+            fault['FAULT_STICKY'] = '1'
+        mask = masks[k % len(masks)]
+
+        def pre(mask=mask):
+            signal.signal(signal.SIGPIPE, signal.SIG_DFL)
+            signal.signal(signal.SIGXFSZ, signal.SIG_DFL)
+            signal.pthread_sigmask(signal.SIG_BLOCK, mask)
+        r = run_filter(ck, exe, shim, args, inf, fault, 500000 + n, preexec=pre)
+        evaluations += 1
+        inherited += 1
+        obs = 'end=%s err=%d' % (r['end'], r['err'])
+        replay = {'mode': m, 'argv': r['argv'], 'env': r['env'],
+                  'inherited_blocked_signals': [int(x) for x in mask],
+                  'observed': '%s %.2fs' % (obs, r['dt']),
+                  'stderr': r['stderr'], 'model_allows': allowed[n],
+                  'how': 'as the injected-errno runs, but the parent blocks '
+                         'the listed signals before exec'}
+        bad = judge(cls, e, True, r) if r['inj'] else \
+            ([] if r['end'] == 'exit:0' else ['ended with ' + r['end']])
+        if not bad and r['inj'] and obs not in allowed[n].split(' | ')[1:]:
+            bad = ['outcome "%s" with an inherited mask is not one the '
+                   'failure-path model allows {%s}' % (obs, allowed[n])]
+        for b in bad:
+            violation('%s %s[%d] %s with signals %s blocked by the parent: %s'
+                      % (m, cls, idx, e, [int(x) for x in mask], b), replay)
+        distinct.add((m, cls, idx, e, sticky, 'inherit', tuple(mask), obs))
+    ck.log('runs with an inherited blocked-signal mask: %d' % inherited)
+
     # ---- real failures (serial: they use preexec_fn) -----------------------
     real_cases = 0
 
